@@ -343,6 +343,25 @@ def codeCfg : Cfg :=
 theorem code_creation_window_guard :
     codeCfg.manifestsAloneAreNoDB = true ∧ Gen.recoverNoMetaNeedsData = true ∧ codeCfg = {} := by decide
 
+/-- the batch decoder of the model compares record lengths in ℕ, which is what `decodeBatch` does since the repair of
+    D49 (`x > uint64(len(data)-o)`; before, `o+int(x)` wrapped for lengths of 2^63 and more and `Batch.Load`
+    panicked or accepted a record of length -1), and a failed `Batch.decode` leaves an empty batch (D48; before, the
+    records decoded so far stayed with the malformed buffer and a later `Write` put it into the journal).  Both facts
+    are regenerated from the source; `Batch.Load` on mutated dumps incl. such lengths is compared with
+    `Batch.decodeRecs` on every run (`dur bbody`). -/
+theorem code_batch_decode_guards :
+    Gen.batchLenCheckUnsigned = true ∧ Gen.batchDecodeClearsOnError = true ∧
+    -- a record whose key length is 2^63 is rejected, whatever follows
+    (∀ rest : Bytes, rest.length < 2 ^ 63 →
+      Batch.decodeRec (1 :: ([0x80, 0x80, 0x80, 0x80, 0x80, 0x80, 0x80, 0x80, 0x80, 0x01] ++ rest)) = .error .badKeyLen) := by
+  refine ⟨by decide, by decide, fun rest h => ?_⟩
+  have hv : readUvarint ([0x80, 0x80, 0x80, 0x80, 0x80, 0x80, 0x80, 0x80, 0x80, 0x01] ++ rest) = some (2 ^ 63, 10) := by
+    simp [readUvarint, readUvarintAux]
+  simp only [Batch.decodeRec, hv]
+  have hk : Gen.keyTypeVal = 1 := by decide
+  have hl : rest.length < 9223372036854775808 := by simpa using h
+  simp [hk, hl]
+
 /-! ## the creation of the DB in front -/
 
 /-- the start state of the theorems above is what `openDB` reaches after `session.create` -/
@@ -645,7 +664,7 @@ def theorems : List String :=
    "GoLevel.C04.crash_consistent_core", "GoLevel.C04.crash_consistent", "GoLevel.C04.reopen_after_exit",
    "GoLevel.C04.early_journal_removal_loses_write", "GoLevel.C04.rotation_without_nums_hides_data",
    "GoLevel.C04.setmeta_before_sync_fails_to_reopen", "GoLevel.C04.d22_torn_manifest_record_loses_write",
-   "GoLevel.C04.d12_creation_window", "GoLevel.C04.code_creation_window_guard", "GoLevel.C04.init_is_created",
+   "GoLevel.C04.d12_creation_window", "GoLevel.C04.code_creation_window_guard", "GoLevel.C04.code_batch_decode_guards", "GoLevel.C04.init_is_created",
    "GoLevel.C04.crash_consistent_created", "GoLevel.C04.crash_consistent_bytes_created",
    "GoLevel.C04.recoverBytes_encodeDisk", "GoLevel.C04.crash_image_decodes", "GoLevel.C04.journal_image_decodes",
    "GoLevel.C04.manifest_image_decodes", "GoLevel.C04.silent_nil", "GoLevel.C04.silent_zeros",
